@@ -48,6 +48,11 @@ script steps (python lists)                                     event logged
   ['cancel', uids, form]      pmgr.cancel_pilots(...) / Pilot.cancel()    Request
   ['raw', uids, own, form]    a kill_pilots control message as such  Request
   ['close']                   pmgr.close()                           Request
+  ['pclose', terminate]       pmgr.close(terminate=...)              Request
+  ['sclose', terminate, via]  Session.close on a __new__-built session which holds the pilot
+                              manager: via 'kwarg' close(terminate=...), 'option' close_options
+                              of the session then close(), 'exit' the context manager exit
+                              (terminate None: the default)          Request
   ['deliver']                 oldest control message -> comp.control_cb   Deliver
   ['flush']                   deliver what is queued; the batch system
                               confirms the cancels it was asked for  Deliver* JobEnds*
@@ -79,6 +84,7 @@ from . import sizing_rig as SZ            # fake_psij / fake_saga / Hooks, launc
 
 from radical.pilot.pilot         import Pilot
 from radical.pilot.pilot_manager import PilotManager
+from radical.pilot               import session as m_session
 
 lbase, psi_mod, saga_mod = SZ.lbase, SZ.psi_mod, SZ.saga_mod
 
@@ -217,7 +223,7 @@ class PilotKillRig(object):
         return {'cmd': str(msg.get('cmd')), 'pmgr': str(arg.get('pmgr') if isinstance(arg, dict) else 'none'),
                 'own': bool(isinstance(arg, dict) and arg.get('pmgr') == PMGR),
                 'uids': [str(u) for u in (uids if isinstance(uids, list) else [] if uids is None else [uids])],
-                'aslist': isinstance(uids, list)}
+                'aslist': isinstance(uids, list), 'fwd': bool(msg.get('fwd'))}
 
     # ---- construction ------------------------------------------------------------
     def _build(self):
@@ -278,6 +284,28 @@ class PilotKillRig(object):
                 self.bulk = []
         c._start_pilot_bulk   = start_pilot_bulk
         self.comp = c
+
+    def _session(self, close_options):
+        '''a primary session around the pilot manager: the real Session.close() runs, what it
+           sends on the control channel is recorded like the manager's messages'''
+        rig, log = self, rpshim.NullLog()
+        S = m_session.Session
+        s = S.__new__(S)
+
+        class CtrlPub(object):
+            def put(self, channel, msg):
+                rig._pmgr_publish(channel, msg)
+
+        s._uid, s._role, s._closed = 'rp.session.verif.0000', S._PRIMARY, False
+        s._log, s._prof, s._rep    = log, SZ._Prof(), _Rep()
+        s._close_options           = m_session._CloseOptions(close_options or {})
+        s._close_options.verify()
+        s._ctrl_pub, s._ctrl_sub   = CtrlPub(), _Closer()
+        s._tmgrs, s._pmgrs         = dict(), {PMGR: self.pm}
+        s._cmgr = s._proxy_client = s._proxy = None
+        s._reg, s._reg_service     = log, _Closer()
+        s._t_start, s._to_stop     = 0.0, list()
+        return s
 
     def _make_pilot(self, pid):
         p = Pilot.__new__(Pilot)
@@ -515,6 +543,21 @@ class PilotKillRig(object):
                         uids=uids, form=form, own=own)
         elif op == 'close':
             self._event('Request', lambda: pm.close(), api='close', uids=[], form='none', own=True)
+        elif op == 'pclose':
+            term = bool(step[1])
+            self._event('Request', lambda: pm.close(terminate=term), api='pclose', uids=[], form='kwarg',
+                        own=True, terminate=term)
+        elif op == 'sclose':
+            term, via = step[1], step[2] if len(step) > 2 else 'kwarg'
+            sess = self._session(None if via != 'option' or term is None else {'terminate': bool(term)})
+            if via == 'kwarg' and term is not None:
+                fn = lambda: sess.close(terminate=bool(term))
+            elif via == 'exit':
+                fn = lambda: sess.__exit__(None, None, None)
+            else:
+                fn = lambda: sess.close()
+            self._event('Request', fn, api='sclose', uids=[], form=via, own=True,
+                        terminate=True if term is None or via == 'exit' else bool(term))
         elif op == 'deliver':
             if c._lock.holder == 'work' and self.thread != 'work':
                 # work() holds the component lock: the control thread waits for it
@@ -619,7 +662,9 @@ def random_script(rng):
                 script.append(['raw', uids, rng.random() < 0.7,
                                'str' if len(uids) == 1 and rng.random() < 0.3 else 'list'])
             elif y < 0.85:
-                script.append(['close'])
+                script.append(rng.choice([['close'], ['pclose', True], ['pclose', False],
+                                          ['sclose', True, 'kwarg'], ['sclose', False, 'kwarg'],
+                                          ['sclose', False, 'option'], ['sclose', None, 'exit']]))
                 closed = True
             else:
                 script.append(['kill', [], rng.choice(['none', 'list'])])
